@@ -87,6 +87,8 @@ pub struct Event {
     pub i: usize,          // step within program
     pub ma: usize,         // MIN_ALIGN
     pub th: usize,         // thread (0 main)
+    pub ar: usize,         // arena index within a multi-arena program
+    pub seq: usize,        // per-thread sequence number of the call (multi-arena programs)
     pub op: String,        // operation name
     pub fall: u8,          // 1 if the fallible flavour
     pub size: i64,         // requested size (bytes) or -1
@@ -1548,6 +1550,186 @@ fn run_ctor_only<const M: usize>(pidx: usize, prog: &Program) -> Vec<Event> {
         }
     }
     out
+}
+
+// ------------------------------------------------------------ several arenas / threads
+
+/// Several arenas, each with its own operation list, driven either interleaved on one
+/// thread (all `threads` entries 0, `schedule` gives the order) or by one thread per
+/// distinct entry of `threads`, concurrently.
+#[derive(Serialize, Deserialize, Clone, Debug)]
+pub struct MultiProgram {
+    pub ma: usize,
+    pub arenas: Vec<Vec<Op>>,
+    pub threads: Vec<usize>,
+    pub schedule: Vec<usize>,
+    #[serde(default)]
+    pub tag: String,
+}
+
+/// One line of the synchronisation log that ThreadsTrace.tla validates.
+#[derive(Serialize, Clone, Debug, Default)]
+pub struct SyncEvent {
+    pub p: usize,
+    pub k: String, // begin | spawn | join | op
+    pub th: usize,
+    pub c: usize,  // spawn/join: the other thread
+    pub ar: usize,
+    pub i: usize,
+    pub op: String,
+    pub stores: Vec<[i64; 3]>,
+}
+
+struct ArenaCtx<const M: usize> {
+    st: St<M>,
+    sh: Shared,
+    next: usize,
+}
+
+fn multi_step<const M: usize>(ctx: &mut ArenaCtx<M>, ops: &[Op], seq: &mut usize, ar: usize) {
+    // install this arena's bookkeeping, run one op, take it back
+    SH.with(|s| std::mem::swap(&mut *s.borrow_mut(), &mut ctx.sh));
+    let before = ctx.st.out.len();
+    if ctx.next < ops.len() {
+        step(&mut ctx.st, &ops[ctx.next]);
+        ctx.next += 1;
+    } else {
+        step(&mut ctx.st, &Op::Drop);
+        ctx.next += 1;
+    }
+    for e in ctx.st.out[before..].iter_mut() {
+        e.ar = ar;
+        e.seq = *seq;
+        *seq += 1;
+    }
+    SH.with(|s| std::mem::swap(&mut *s.borrow_mut(), &mut ctx.sh));
+}
+
+fn new_ctx<const M: usize>(pidx: usize, ar: usize, th: usize, tag: &str) -> ArenaCtx<M> {
+    let mut sh = Shared::default();
+    sh.seed = 0x9999 ^ ((pidx * 31 + ar) as u64);
+    ArenaCtx {
+        st: St::<M> { bump: None, gablocks: Vec::new(), last_layout: None, prog: pidx, step: 0, th, out: Vec::new(), tag: tag.to_string() },
+        sh,
+        next: 0,
+    }
+}
+
+fn run_multi_m<const M: usize>(pidx: usize, mp: &MultiProgram) -> (Vec<Event>, Vec<SyncEvent>) {
+    rec::reset_slice();
+    rec::set_placement(Placement::Minimal);
+    let n = mp.arenas.len();
+    let threaded = mp.threads.iter().any(|&t| t != 0);
+    let mut sync: Vec<SyncEvent> = vec![SyncEvent { p: pidx, k: "begin".into(), ..Default::default() }];
+    let mut per_arena: Vec<Vec<Event>> = Vec::new();
+    if !threaded {
+        let mut ctxs: Vec<ArenaCtx<M>> = (0..n).map(|a| new_ctx::<M>(pidx, a, 0, &mp.tag)).collect();
+        let mut seq = 0usize;
+        for &a in &mp.schedule {
+            if a < n && ctxs[a].next <= mp.arenas[a].len() {
+                multi_step(&mut ctxs[a], &mp.arenas[a], &mut seq, a);
+            }
+        }
+        // finish whatever the schedule left over, arena by arena, and drop
+        for a in 0..n {
+            while ctxs[a].next <= mp.arenas[a].len() {
+                multi_step(&mut ctxs[a], &mp.arenas[a], &mut seq, a);
+            }
+        }
+        for c in ctxs {
+            per_arena.push(c.st.out.clone());
+        }
+    } else {
+        let mut tids: Vec<usize> = mp.threads.clone();
+        tids.sort();
+        tids.dedup();
+        for &t in &tids {
+            sync.push(SyncEvent { p: pidx, k: "spawn".into(), th: 0, c: t, ..Default::default() });
+        }
+        let results: Vec<Vec<(usize, Vec<Event>)>> = std::thread::scope(|sc| {
+            let mut hs = Vec::new();
+            for &t in &tids {
+                let mine: Vec<usize> = (0..n).filter(|&a| mp.threads[a] == t).collect();
+                let mp = mp;
+                hs.push(sc.spawn(move || {
+                    rec::set_slice(t.min(rec::MAX_THREADS));
+                    let mut ctxs: Vec<(usize, ArenaCtx<M>)> = mine.iter().map(|&a| (a, new_ctx::<M>(pidx, a, t, &mp.tag))).collect();
+                    let mut seq = 0usize;
+                    // round-robin over this thread's arenas
+                    let mut progress = true;
+                    while progress {
+                        progress = false;
+                        for (a, c) in ctxs.iter_mut() {
+                            if c.next <= mp.arenas[*a].len() {
+                                multi_step(c, &mp.arenas[*a], &mut seq, *a);
+                                progress = true;
+                            }
+                        }
+                    }
+                    ctxs.into_iter().map(|(a, c)| (a, c.st.out.clone())).collect::<Vec<_>>()
+                }));
+            }
+            hs.into_iter().map(|h| h.join().unwrap()).collect()
+        });
+        let mut slots: Vec<Vec<Event>> = vec![Vec::new(); n];
+        for r in results {
+            for (a, evs) in r {
+                slots[a] = evs;
+            }
+        }
+        per_arena = slots;
+        for &t in &tids {
+            sync.push(SyncEvent { p: pidx, k: "join".into(), th: 0, c: t, ..Default::default() });
+        }
+    }
+    // sync log: every call with its footer stores
+    let mut all: Vec<&Event> = per_arena.iter().flatten().collect();
+    if threaded {
+        // thread by thread in program order; threads are concurrent between spawn and join
+        all.sort_by_key(|e| (e.th, e.seq));
+        let joins: Vec<SyncEvent> = sync.iter().filter(|s| s.k == "join").cloned().collect();
+        sync.retain(|s| s.k != "join");
+        for e in all {
+            sync.push(SyncEvent { p: pidx, k: "op".into(), th: e.th, c: 0, ar: e.ar, i: e.i, op: e.op.clone(), stores: e.stores.clone() });
+        }
+        sync.extend(joins);
+    } else {
+        // one driving thread; an OnThread section hands the arena to a helper thread and joins it
+        // (thread::scope): spawn / join edges around every maximal run of helper-thread calls
+        all.sort_by_key(|e| e.seq);
+        let mut cur = 0usize;
+        for e in all {
+            if e.th != cur {
+                if cur != 0 {
+                    sync.push(SyncEvent { p: pidx, k: "join".into(), th: 0, c: cur, ..Default::default() });
+                }
+                if e.th != 0 {
+                    sync.push(SyncEvent { p: pidx, k: "spawn".into(), th: 0, c: e.th, ..Default::default() });
+                }
+                cur = e.th;
+            }
+            sync.push(SyncEvent { p: pidx, k: "op".into(), th: e.th, c: 0, ar: e.ar, i: e.i, op: e.op.clone(), stores: e.stores.clone() });
+        }
+        if cur != 0 {
+            sync.push(SyncEvent { p: pidx, k: "join".into(), th: 0, c: cur, ..Default::default() });
+        }
+    }
+    let mut out = Vec::new();
+    for evs in per_arena {
+        out.extend(evs);
+    }
+    rec::set_fault(Fault::None);
+    (out, sync)
+}
+
+pub fn run_multi(pidx: usize, mp: &MultiProgram) -> (Vec<Event>, Vec<SyncEvent>) {
+    match mp.ma {
+        1 => run_multi_m::<1>(pidx, mp),
+        2 => run_multi_m::<2>(pidx, mp),
+        4 => run_multi_m::<4>(pidx, mp),
+        8 => run_multi_m::<8>(pidx, mp),
+        _ => run_multi_m::<16>(pidx, mp),
+    }
 }
 
 pub fn init() {
